@@ -685,7 +685,7 @@ theorem extRev_some : ∀ (rn e p : Bytes), extRev rn = some (e, p) →
     · simp [h1] at h
       exact ⟨[], by simp [h.1.symm, h.2.symm, h1]⟩
     · by_cases h2 : c = 47
-      · simp [h1, h2] at h
+      · simp [h2] at h
       · simp only [h1, h2, if_false] at h
         cases hr : extRev r with
         | none => rw [hr] at h; cases h
